@@ -76,10 +76,12 @@ def upstream(base, action, k):
         git(w, 'push', '-q', '-f', bare, 'v1')
 
 
-SPEC0 = dict(url='repo1', ref='branch:master', dir='.', nested=0, rebase=0, dep=1, urlnest=0, urlver=0)
+SPEC0 = dict(url='repo1', ref='branch:master', dir='.', nested=0, rebase=0, dep=1, urlnest=0, urlver=0, sib=0)
 SPEC_BC = dict(SPEC0, ref='bc0')                  # branch master + commit c0 (gitCommitOnBranch)
 SPEC_NESTED = dict(SPEC0, nested=1)
-INITS = {'default': SPEC0, 'branch+commit': SPEC_BC, 'nested': SPEC_NESTED, 'urlnest': dict(SPEC0, urlnest=1)}
+# siblings: two SCMs side by side whose directory names share a prefix (sub, sub-extra)
+INITS = {'default': SPEC0, 'branch+commit': SPEC_BC, 'nested': SPEC_NESTED, 'urlnest': dict(SPEC0, urlnest=1),
+         'siblings': dict(SPEC0, dir='sub', nested=1, sib=1)}
 
 
 def files(spec, base, info):
@@ -95,7 +97,7 @@ def files(spec, base, info):
         lines.append('      commit: %s' % info['c0' if ref == 'bc0' else 'c1'])
     if spec['dir'] != '.': lines.append('      dir: %s' % spec['dir'])
     if spec['nested']:
-        lines += ['    - scm: git', '      url: "file://%s.git"' % os.path.join(base, 'repo2'), '      dir: nested']
+        lines += ['    - scm: git', '      url: "file://%s.git"' % os.path.join(base, 'repo2'), '      dir: %s' % ('sub-extra' if spec.get('sib') else 'nested')]
     if spec['urlnest']:
         lines += ['    - scm: url', '      url: "file://%s/tars/%s/data.tar"' % (base, '2.0' if spec['urlver'] else '1.0'), '      dir: vendor']
     f = {'config.yaml': 'bobMinimumVersion: "0.25"\n',
@@ -362,7 +364,13 @@ def run(ctx):
     for w in ('w_mod', 'w_untracked', 'w_commit'):
         hists.append(((w, 's_drop'), (), ['clean', '-s'], 'nested'))
     hists.append((('s_drop',), (), ['clean', '-s'], 'nested'))
+    # sibling SCM directories with a common name prefix: the first one is replaced (attic) / switched, the second one stays or leaves
+    for h in (('s_url',), ('s_url', 'rerun'), ('s_url', 's_nested'), ('s_nested',), ('s_nested', 's_nested'), ('s_dev',), ('s_url', 's_url')):
+        hists.append((h, (), None, 'siblings'))
+    hists.append((('s_url',), (), ['clean', '-s'], 'siblings'))
     hists = sorted(set((h, ba, tuple(f) if f else None, init) for h, ba, f, init in hists), key=repr)
+    if ctx.opts.get('only'):      # debugging aid: restrict to one initial project
+        hists = [h for h in hists if h[3] == ctx.opts['only']]
     # fresh checkouts needed as reference: every (spec, upstream actions so far) reachable without user action
     need = needed_fresh(hists)
     fresh = dict(runner.pmap(fresh_job, sorted(need)))
